@@ -276,13 +276,53 @@ def refString (o : Obj) : Option String :=
 
 def isExtKey (k : String) : Bool := "x-".toList.isPrefixOf k.toList
 
-/-- `Types.MarshalYAML`: a string becomes a one-element list and is written back as a string; a one-element
-    list is written as a string; the empty list is written as null (the three marshallers that hold a `*Types`
-    no longer reach this with an empty list: guard `neNilLenNe0`) -/
-def rtTypes : JV → JV
-  | .arr [] => .null
-  | .arr [x] => x
-  | v => v
+/-- why the deep model has no value: the real code panics (nil dereference in a value-receiver
+    `MarshalYAML`), the fuel of the model ran out (never with the fuel the driver passes), or the real
+    decoder refuses the input (modelled for `Types` only: elsewhere the model is silent about typing) -/
+inductive Err | panic | fuel | unparsed
+  deriving DecidableEq, Repr
+
+abbrev Res := Except Err
+
+/-- `List.mapM` for `Res`, written out (structural: reduces under `decide`, easy induction) -/
+def mapR {α β : Type} (f : α → Res β) : List α → Res (List β)
+  | [] => .ok []
+  | x :: xs =>
+    match f x with
+    | .error e => .error e
+    | .ok y =>
+      match mapR f xs with
+      | .error e => .error e
+      | .ok ys => .ok (y :: ys)
+
+def Res.wrap {α β : Type} (c : α → β) : Res α → Res β
+  | .ok a => .ok (c a)
+  | .error e => .error e
+
+/-- key-preserving map over the members of an object -/
+def mapKV (g : String → JV → Res JV) (kvs : Obj) : Res Obj :=
+  mapR (fun (kv : String × JV) => (g kv.1 kv.2).wrap (fun v' => (kv.1, v'))) kvs
+
+/-- one element of a `[]string`: null is decoded as the empty string -/
+def typeElem : JV → Res JV
+  | .null => .ok (.str "")
+  | .str s => .ok (.str s)
+  | _ => .error .unparsed
+
+/-- `Types.UnmarshalJSON` then `Types.MarshalYAML`: a string becomes a one-element list and is written back
+    as a string; a one-element list is written as a string; the empty list is written as null (the three
+    marshallers that hold a `*Types` no longer reach this with an empty list: guard `neNilLenNe0`); anything
+    that is neither a string nor a list of strings is refused by the decoder -/
+def rtTypes : JV → Res JV
+  | .null => .ok .null
+  | .str s => .ok (.str s)
+  | .arr xs =>
+    match mapR typeElem xs with
+    | .error e => .error e
+    | .ok [] => .ok .null
+    | .ok [x] => .ok x
+    | .ok ys => .ok (.arr ys)
+  | _ => .error .unparsed
 
 /-- the `Schema.UnmarshalJSON` post-processing: `format: date` trims a `T00:00:00Z` suffix of a string example -/
 def hasDateSuffix (s : String) : Bool := "T00:00:00Z".toList.isSuffixOf s.toList
@@ -290,106 +330,128 @@ def hasDateSuffix (s : String) : Bool := "T00:00:00Z".toList.isSuffixOf s.toList
 def trimDate (s : String) : String :=
   if hasDateSuffix s then String.ofList (s.toList.take (s.toList.length - 10)) else s
 
-def applyPost (d : Desc) (o : Obj) : Obj :=
-  if d.post.contains "dateExampleTrim" then
-    match lookup "format" o, lookup "example" o with
-    | some (.str "date"), some (.str e) => o.map (fun kv => if kv.1 == "example" then (kv.1, .str (trimDate e)) else kv)
-    | _, _ => o
-  else o
+def JV.isStrEq (t : String) : JV → Bool | .str s => s == t | _ => false
+def JV.endsDate : JV → Bool | .str e => hasDateSuffix e | _ => false
+def JV.trimDate : JV → JV | .str e => .str (KinModel.Marshal.trimDate e) | v => v
+
+/-- the object has `format: "date"` and a string `example` ending in `T00:00:00Z` -/
+def trimmable (o : Obj) : Bool :=
+  (lookup "format" o).any (JV.isStrEq "date") && (lookup "example" o).any JV.endsDate
 
 /-- the input reaches the date-trimming statement and is changed by it (exclusion class `DateExampleTrim`) -/
-def dateTrimHit (d : Desc) (o : Obj) : Bool :=
-  d.post.contains "dateExampleTrim" &&
-  (match lookup "format" o, lookup "example" o with
-   | some (.str "date"), some (.str e) => hasDateSuffix e
-   | _, _ => false)
+def dateTrimHit (d : Desc) (o : Obj) : Bool := d.post.contains "dateExampleTrim" && trimmable o
 
-/-- why the deep model has no value: the real code panics (nil dereference in a value-receiver
-    `MarshalYAML`), or the fuel of the model ran out (never with the fuel the driver passes) -/
-inductive Err | panic | fuel
-  deriving DecidableEq, Repr
-
-abbrev Res := Except Err
+def applyPost (d : Desc) (o : Obj) : Obj :=
+  if dateTrimHit d o then o.map (fun kv => if kv.1 == "example" then (kv.1, kv.2.trimDate) else kv) else o
 
 /-- `MarshalYAML` where the value of every written field is marshalled by its own marshaller `f` -/
 def marshalDeep (f : Shape → JV → Res JV) (d : Desc) (r : Rec) : Res Obj :=
-  if d.refEarly && !(r.fld "Ref").isEmptyStr then pure [("$ref", r.fld "Ref")]
+  if d.refEarly && !(r.fld "Ref").isEmptyStr then .ok [("$ref", r.fld "Ref")]
   else
-    ((d.marsh.filter (fun m => guard (tcOfGo d m.goName) m.guard (r.fld m.goName))).mapM
-      (fun (m : MField) => (f (shapeOfGo d m.goName) (written m.guard (r.fld m.goName))).map (fun v' => (m.key, v')))).map
+    (mapR (fun (m : MField) =>
+              (f (shapeOfGo d m.goName) (written m.guard (r.fld m.goName))).wrap (fun v' => (m.key, v')))
+          (d.marsh.filter (fun m => guard (tcOfGo d m.goName) m.guard (r.fld m.goName)))).wrap
       (fun fs => fs ++ (if d.extCopy then r.ext else []))
+
+/-- what the decoder of the element type makes of a null element of a slice / a null entry of a plain map:
+    a named map type turns it into an empty map, a string into "" -/
+def nullFix : Shape → JV → JV
+  | .pmap _, .null => .obj []
+  | .strLeaf, .null => .str ""
+  | _, v => v
+
+/-- a null entry of a map of reference wrappers is decoded into a pointer to a zero wrapper: its marshaller
+    writes null when it checks `Value` (or the value's marshaller tolerates nil), and panics otherwise -/
+def nilEntry (T : List Desc) (w : String) : Res JV :=
+  match findDesc T w with
+  | some d => if d.valueNilSafe then .ok .null else .error .panic
+  | none => .ok .null
+
+/-- an entry of a named map type / of a map-like container (decoded by `unmarshalStringMapP`: a null entry
+    becomes a pointer to the zero value of the entry type) -/
+def entryStep (T : List Desc) (f : Shape → JV → Res JV) (s : Shape) (v : JV) : Res JV :=
+  match v with
+  | .null =>
+    (match s with
+     | .ref w => nilEntry T w
+     | .kind k => f (.kind k) (.obj [])
+     | .strLeaf => f .strLeaf (.str "")
+     | _ => .ok .null)
+  | v => f s v
+
+def entryShapeOf (d : Desc) : Shape := match d.valueShape with | .map s => s | s => s
+
+def stepAddProps (f : Shape → JV → Res JV) : JV → Res JV
+  | .obj [] => .ok (.obj [])
+  | .obj (kv :: kvs) => f (.ref "openapi3.SchemaRef") (.obj (kv :: kvs))
+  | v => .ok v
+
+def stepList (f : Shape → JV → Res JV) (s : Shape) : JV → Res JV
+  | .arr xs => (mapR (fun x => f s (nullFix s x)) xs).wrap .arr
+  | v => .ok v
+
+def stepMap (f : Shape → JV → Res JV) (s : Shape) : JV → Res JV
+  | .obj kvs => (mapKV (fun _ x => f s (nullFix s x)) kvs).wrap .obj
+  | v => .ok v
+
+def stepPMap (T : List Desc) (f : Shape → JV → Res JV) (s : Shape) : JV → Res JV
+  | .obj kvs => (mapKV (fun _ x => entryStep T f s x) kvs).wrap .obj
+  | v => .ok v
+
+/-- reference wrapper: `$ref` (a non-empty string) wins and everything next to it is dropped; otherwise the
+    object is the value -/
+def stepRef (T : List Desc) (f : Shape → JV → Res JV) (w : String) : JV → Res JV
+  | .obj kvs =>
+    (match findDesc T w with
+     | none => .ok (.obj kvs)
+     | some d =>
+       match refString kvs with
+       | some r => .ok (.obj [("$ref", .str r)])
+       | none => f d.valueShape (.obj kvs))
+  | v => .ok v
+
+/-- map-like container (Paths / Responses / Callback): `x-` keys are extensions, `__origin__` is dropped,
+    every other key is an entry -/
+def stepMaplike (T : List Desc) (f : Shape → JV → Res JV) (w : String) : JV → Res JV
+  | .obj kvs =>
+    (match findDesc T w with
+     | none => .ok (.obj kvs)
+     | some d =>
+       (mapKV (fun k x => if isExtKey k then .ok x else entryStep T f (entryShapeOf d) x)
+          (kvs.filter (fun kv => kv.1 != "__origin__"))).wrap .obj)
+  | v => .ok v
+
+def stepKind (T : List Desc) (f : Shape → JV → Res JV) (k : String) (v : JV) : Res JV :=
+  match findDesc T k with
+  | none => .ok v
+  | some d =>
+    match d.template with
+    | .alias => f d.valueShape v
+    | .struct =>
+      (match v with
+       | .obj kvs => (marshalDeep f d (unmarshal d (applyPost d kvs))).wrap .obj
+       | v => .ok v)
+    | _ => .ok v
+
+/-- one level of the deep round trip (unmarshal then marshal): the flat step at an object of a struct kind,
+    the special shapes, and `f` for everything one level down -/
+def rtStep (T : List Desc) (f : Shape → JV → Res JV) : Shape → JV → Res JV
+  | .leaf, v => .ok v
+  | .strLeaf, v => .ok v
+  | .unknown _, v => .ok v
+  | .types, v => rtTypes v
+  | .addProps, v => stepAddProps f v
+  | .list s, v => stepList f s v
+  | .map s, v => stepMap f s v
+  | .pmap s, v => stepPMap T f s v
+  | .ref w, v => stepRef T f w v
+  | .maplike w, v => stepMaplike T f w v
+  | .kind k, v => stepKind T f k v
 
 /-- deep round trip with fuel (`.error .fuel` = out of fuel; the driver passes more than the depth needs). -/
 def rt (T : List Desc) : Nat → Shape → JV → Res JV
   | 0, _, _ => .error .fuel
-  | n + 1, s, v =>
-    -- what a pointer to the zero value of the shape marshals to (null entries of named maps and of
-    -- map-like containers are decoded into such pointers)
-    let zeroEntry : Shape → Res JV := fun s =>
-      match s with
-      | .ref w => (match findDesc T w with
-                   | some d => if d.valueNilSafe then pure .null else .error .panic
-                   | none => pure .null)
-      | .kind k => rt T n (.kind k) (.obj [])
-      | .strLeaf => pure (.str "")
-      | _ => pure .null
-    let entry : Shape → JV → Res JV := fun s v =>
-      match v with
-      | .null => zeroEntry s
-      | v => rt T n s v
-    match s, v with
-    | .leaf, v => pure v
-    | .strLeaf, v => pure v
-    | .unknown _, v => pure v
-    | .types, v => pure (rtTypes v)
-    | .addProps, .obj [] => pure (.obj [])
-    | .addProps, .obj kvs => rt T n (.ref "openapi3.SchemaRef") (.obj kvs)
-    | .addProps, v => pure v
-    | .list s, .arr xs =>
-      -- a null element of a slice of named maps is decoded by the map's UnmarshalJSON into an empty map
-      (xs.mapM (fun (x : JV) => match s, x with
-                               | .pmap _, .null => pure (JV.obj [])
-                               | .strLeaf, .null => pure (JV.str "")
-                               | s, x => rt T n s x)).map .arr
-    | .list _, v => pure v
-    | .map s, .obj kvs =>
-      (kvs.mapM (fun (kv : String × JV) => (match s, kv.2 with
-                                            | .strLeaf, .null => pure (JV.str "")
-                                            | s, x => rt T n s x).map (fun v' => (kv.1, v')))).map .obj
-    | .map _, v => pure v
-    | .pmap s, .obj kvs =>
-      (kvs.mapM (fun (kv : String × JV) => (entry s kv.2).map (fun v' => (kv.1, v')))).map .obj
-    | .pmap _, v => pure v
-    | .ref w, v =>
-      match findDesc T w with
-      | none => pure v
-      | some d =>
-        match v with
-        | .obj kvs =>
-          match refString kvs with
-          | some r => pure (.obj [("$ref", .str r)])
-          | none => rt T n d.valueShape v
-        | v => rt T n d.valueShape v
-    | .maplike w, .obj kvs =>
-      match findDesc T w with
-      | none => pure (.obj kvs)
-      | some d =>
-        let entryShape := match d.valueShape with | .map s => s | s => s
-        ((kvs.filter (fun kv => kv.1 != "__origin__")).mapM (fun (kv : String × JV) =>
-          if isExtKey kv.1 then pure kv
-          else (entry entryShape kv.2).map (fun v' => (kv.1, v')))).map .obj
-    | .maplike _, v => pure v
-    | .kind k, v =>
-      match findDesc T k with
-      | none => pure v
-      | some d =>
-        match d.template with
-        | .alias => rt T n d.valueShape v
-        | .struct =>
-          match v with
-          | .obj kvs => (marshalDeep (rt T n) d (unmarshal d (applyPost d kvs))).map .obj
-          | v => pure v
-        | _ => pure v
+  | n + 1, s, v => rtStep T (rt T n) s v
 
 /-! ### deep normal form (spec side): follows the shape grammar, not the marshallers -/
 
